@@ -27,23 +27,23 @@ package main
 // libFailed, libCalls, declared in /repo/verif_contracts.go); the wrappers are verified to hand the library the
 // process's own stdout (not a buffer whose flush could fail unseen) and to return the library's verdict.
 //@ func main.output
-//@   modifies libWriter, libFailed, libCalls, lastConfig, lastForest, Node.children, Node.parent, Node.brnch.value, Node.brnch.path, list.List.view, list.Element.backOf, counter.n, bufio.Scanner.pos, bufio.Scanner.failed, markdown.Parser.isSharpRoot, markdown.Parser.spaces, markdown.Parser.sep, out, wfail, defaultSpreaderSimple.w, encTrace, encoders, rsRoots, rsFailed, rsStopped, rsErr, gsRoots, gsFailed, gsStopped, gsErr, spRoots, spText, esFailed
+//@   modifies libWriter, libFailed, libCalls, lastConfig, lastForest, lnNodes, Node.children, Node.parent, Node.brnch.value, Node.brnch.path, list.List.view, list.Element.backOf, counter.n, bufio.Scanner.pos, bufio.Scanner.failed, markdown.Parser.isSharpRoot, markdown.Parser.spaces, markdown.Parser.sep, out, wfail, defaultSpreaderSimple.w, encTrace, encoders, rsRoots, rsFailed, rsStopped, rsErr, gsRoots, gsFailed, gsStopped, gsErr, spRoots, spText, esFailed
 //@   ensures direct [C16]: libWriter == os.Stdout
 //@   ensures pub [C16]: libCalls == old(libCalls) + 1 && libFailed == (old(libFailed) || result != nil)
 //@ func main.outputWithValidation
-//@   modifies libWriter, libFailed, libCalls, lastConfig, lastForest, Node.children, Node.parent, Node.brnch.value, Node.brnch.path, list.List.view, list.Element.backOf, counter.n, bufio.Scanner.pos, bufio.Scanner.failed, markdown.Parser.isSharpRoot, markdown.Parser.spaces, markdown.Parser.sep, out, wfail, defaultSpreaderSimple.w, encTrace, encoders, rsRoots, rsFailed, rsStopped, rsErr, gsRoots, gsFailed, gsStopped, gsErr, spRoots, spText, esFailed
+//@   modifies libWriter, libFailed, libCalls, lastConfig, lastForest, lnNodes, Node.children, Node.parent, Node.brnch.value, Node.brnch.path, list.List.view, list.Element.backOf, counter.n, bufio.Scanner.pos, bufio.Scanner.failed, markdown.Parser.isSharpRoot, markdown.Parser.spaces, markdown.Parser.sep, out, wfail, defaultSpreaderSimple.w, encTrace, encoders, rsRoots, rsFailed, rsStopped, rsErr, gsRoots, gsFailed, gsStopped, gsErr, spRoots, spText, esFailed
 //@   ensures direct [C16]: libWriter == color.Output
 //@   ensures pub [C16]: libCalls == old(libCalls) + 1 && libFailed == (old(libFailed) || result != nil)
 //@ func main.mkdir
-//@   modifies libFailed, libCalls, lastConfig, lastForest, Node.children, Node.parent, Node.brnch.value, Node.brnch.path, list.List.view, list.Element.backOf, counter.n, bufio.Scanner.pos, bufio.Scanner.failed, markdown.Parser.isSharpRoot, markdown.Parser.spaces, markdown.Parser.sep, fsOps, fsFailed, defaultGrowerSimple.enabledValidation
+//@   modifies libFailed, libCalls, lastConfig, lastForest, lnNodes, Node.children, Node.parent, Node.brnch.value, Node.brnch.path, list.List.view, list.Element.backOf, counter.n, bufio.Scanner.pos, bufio.Scanner.failed, markdown.Parser.isSharpRoot, markdown.Parser.spaces, markdown.Parser.sep, fsOps, fsFailed, defaultGrowerSimple.enabledValidation
 //@   ensures pub [C16]: libCalls == old(libCalls) + 1 && libFailed == (old(libFailed) || result != nil)
 //@ func main.verify
-//@   modifies libFailed, libCalls, lastConfig, lastForest, Node.children, Node.parent, Node.brnch.value, Node.brnch.path, list.List.view, list.Element.backOf, counter.n, bufio.Scanner.pos, bufio.Scanner.failed, markdown.Parser.isSharpRoot, markdown.Parser.spaces, markdown.Parser.sep, defaultGrowerSimple.enabledValidation, maps
+//@   modifies libFailed, libCalls, lastConfig, lastForest, lnNodes, Node.children, Node.parent, Node.brnch.value, Node.brnch.path, list.List.view, list.Element.backOf, counter.n, bufio.Scanner.pos, bufio.Scanner.failed, markdown.Parser.isSharpRoot, markdown.Parser.spaces, markdown.Parser.sep, defaultGrowerSimple.enabledValidation, maps
 //@   ensures pub [C16]: libCalls == old(libCalls) + 1 && libFailed == (old(libFailed) || result != nil)
 // outputContinuously (--watch: a ticker loop that only ends on an error) is not under contract
 //@ func main.outputContinuously
 //@   assumed
-//@   modifies libWriter, libFailed, libCalls, lastConfig, lastForest, out, wfail
+//@   modifies libWriter, libFailed, libCalls, lastConfig, lastForest, lnNodes, out, wfail
 //@   ensures loops: result != nil
 
 // the option constructors of the library return function values; nothing about them is needed here
@@ -59,7 +59,7 @@ package main
 
 //@ contract actionStatus
 //@   requires nn: c != nil
-//@   modifies libWriter, libFailed, libCalls, lastConfig, lastForest, fsFailed, fsOps, Node.children, Node.parent, Node.brnch.value, Node.brnch.path, list.List.view, list.Element.backOf, counter.n, bufio.Scanner.pos, bufio.Scanner.failed, markdown.Parser.isSharpRoot, markdown.Parser.spaces, markdown.Parser.sep, out, wfail, defaultSpreaderSimple.w, encTrace, encoders, rsRoots, rsFailed, rsStopped, rsErr, gsRoots, gsFailed, gsStopped, gsErr, spRoots, spText, esFailed, defaultGrowerSimple.enabledValidation, maps
+//@   modifies libWriter, libFailed, libCalls, lastConfig, lastForest, lnNodes, fsFailed, fsOps, Node.children, Node.parent, Node.brnch.value, Node.brnch.path, list.List.view, list.Element.backOf, counter.n, bufio.Scanner.pos, bufio.Scanner.failed, markdown.Parser.isSharpRoot, markdown.Parser.spaces, markdown.Parser.sep, out, wfail, defaultSpreaderSimple.w, encTrace, encoders, rsRoots, rsFailed, rsStopped, rsErr, gsRoots, gsFailed, gsStopped, gsErr, spRoots, spText, esFailed, defaultGrowerSimple.enabledValidation, maps
 //@   ensures coder [C16]: result != nil ==> isExitCoder(result) && exitCodeOf(result) != 0
 //@   ensures truthful [C16]: result == nil ==> libFailed == old(libFailed)
 //@ applies actionStatus to main.actionOutput, main.actionMkdir, main.actionVerify
